@@ -521,3 +521,12 @@ Lemma terminate_inhabited :
   /\ ses_events (d_session replay_step w_ok 10 w_ok_run [QStep REntry; QTerminate])
      = [(REnterG, None); (RBreak, Some 0); (RExitG, None); (RTerminate, None)].
 Proof. vm_compute. auto. Qed.
+
+(** A line request makes SetBreakpoints generate the closures before Execute has linked the
+    package-level variable declarations: the debugged program is another program. The plain run
+    initialises both variables, the debugged one (no breakpoint hit, no step) only the first. *)
+Lemma linebp_globals :
+  pl_visited (p_session replay_step 10 w_glob_plain) = [Some 0; Some 1]
+  /\ map snd (ses_heads (d_session replay_step w_glob 10 w_glob_linereq [])) = [Some 0]
+  /\ ses_status (d_session replay_step w_glob 10 w_glob_linereq []) = Returned.
+Proof. vm_compute. auto. Qed.
